@@ -106,9 +106,11 @@ async def run_steps(env: Env, node: NodeSpec, phase: str, steps: list):
             env.ev("cp_done", node.idx)
         elif k == "svc":
             # ("svc", label, checkpoints before started(), stall: never call started())
-            _, label, pre, stall = st
+            # optional 5th element "callable": stopped through a callable teardown_action instead of cancellation
+            label, pre, stall = st[1:4]
+            stop = anyio.Event()
 
-            async def service(*, task_status, label=label, pre=pre, stall=stall):
+            async def service(*, task_status, label=label, pre=pre, stall=stall, stop=stop):
                 env.ev("svc_begin", label)
                 try:
                     for _ in range(pre):
@@ -117,13 +119,20 @@ async def run_steps(env: Env, node: NodeSpec, phase: str, steps: list):
                         await anyio.sleep_forever()
                     task_status.started()
                     env.ev("svc_started", label)
-                    await anyio.sleep_forever()
+                    await stop.wait()
                 finally:
                     env.ev("svc_end", label)
 
+            def action(label=label, stop=stop):
+                env.ev("svc_action", label)
+                stop.set()
+
             from asphalt.core import start_service_task
 
-            await start_service_task(service, label)
+            if len(st) > 4 and st[4] == "callable":
+                await start_service_task(service, label, teardown_action=action)
+            else:
+                await start_service_task(service, label)
             env.ev("svc_registered", node.idx, label)
         elif k == "sleep":
             await anyio.sleep(st[1])
